@@ -479,11 +479,13 @@ impl Fixture {
             // generation 1
             raw.reference(&format!("{ns}/refs/heads/master"), c1, true, "chk").unwrap();
             raw.reference(&format!("{ns}/refs/heads/old"), c1, true, "chk").unwrap();
+            raw.reference(&format!("{ns}/refs/heads/old2"), c1, true, "chk").unwrap();
             repo.sign_refs(dev).unwrap();
             let v1 = ns_refs_of(raw, &pk);
-            // generation 2: one ref moves, one disappears, one appears
+            // generation 2: one ref moves, two disappear, one appears
             raw.reference(&format!("{ns}/refs/heads/master"), c2, true, "chk").unwrap();
             raw.find_reference(&format!("{ns}/refs/heads/old")).unwrap().delete().unwrap();
+            raw.find_reference(&format!("{ns}/refs/heads/old2")).unwrap().delete().unwrap();
             raw.reference(&format!("{ns}/refs/tags/v2"), c2, true, "chk").unwrap();
             repo.sign_refs(dev).unwrap();
             let v2 = ns_refs_of(raw, &pk);
@@ -588,6 +590,13 @@ impl Fixture {
         std::fs::create_dir_all(git_dir.join("refs")).unwrap();
         for f in ["HEAD", "config"] {
             std::fs::copy(self.base_git.join(f), git_dir.join(f)).unwrap_or_else(|e| machinery(&format!("serve: copy {f}: {e}")));
+        }
+        // The serving repository's own configuration: single-threaded pack-objects (the packs have a
+        // dozen objects; 16 delta threads per upload-pack request only cost process start-up time).
+        {
+            let mut cfg = std::fs::read_to_string(git_dir.join("config")).unwrap_or_default();
+            cfg.push_str("[pack]\n\tthreads = 1\n");
+            std::fs::write(git_dir.join("config"), cfg).unwrap();
         }
         std::fs::write(git_dir.join("objects/info/alternates"), format!("{}\n", self.base_git.join("objects").display())).unwrap();
         let write_ref = |name: &str, v: &RefVal| {
@@ -851,6 +860,15 @@ fn err_variant(e: &radicle_fetch::Error) -> String {
 
 /// Run the real `radicle_fetch::clone` / `pull`.
 pub fn fetch(fx: &Fixture, spec: &FetchSpec) -> FetchRun {
+    let t0 = std::time::Instant::now();
+    let r = fetch_inner(fx, spec);
+    if std::env::var_os("FETCHFIX_TIMING").is_some() {
+        eprintln!("fetchfix: {} took {:.1} ms -> {}", spec.mode.name(), t0.elapsed().as_secs_f64() * 1e3, r.result.label());
+    }
+    r
+}
+
+fn fetch_inner(fx: &Fixture, spec: &FetchSpec) -> FetchRun {
     if let Some(prior) = spec.prior {
         if prior != spec.fetcher_root {
             copy_dir(prior, spec.fetcher_root, &[]);
